@@ -266,6 +266,39 @@ def whitenFitParams {ε : Type} (decomp : WMethod → List (List α) → Except 
 
 end
 
+/-! ### the linfa-specific part of `Whitener::fit` after the external factorisation; fits on datasets -/
+
+section
+variable {α : Type} [Add α] [Sub α] [Mul α] [Div α] [Neg α] [LT α] [DecidableLT α]
+  [LE α] [DecidableLE α] [OfNat α 0] [OfNat α 1] [NatCast α] [Transc α]
+
+/-- PCA branch after `sigma.svd(false, true)`: `s.mapv(|x| x.max(1e-8))` (`floor` = the `1e-8`),
+`cov_scale = F::cast(n - 1).sqrt()`, then row `a` of `Vᵀ` is multiplied by `cov_scale / s_a`
+(`for (v_t, s) in v_t.axis_iter_mut(Axis(0)).zip(s.iter()) { v_t *= cov_scale / *s }`). -/
+def pcaAssemble (floor : α) (n : Nat) (s : List α) (vt : List (List α)) : List (List α) :=
+  let covScale : α := Transc.sqrt (((n - 1 : Nat)) : α)
+  List.zipWith (fun row sv => row.map fun v => v * (covScale / maxS sv floor)) vt s
+
+/-- the external factorisations of linfa-linalg, one per branch: `svd(false, true)` of the centred
+records (singular values, `Vᵀ`), and the whole ZCA / Cholesky branches (covariance, SVD resp.
+`invc` + `cholesky`), whose result is the whitening matrix -/
+structure Factor (α ε : Type) where
+  svdVt : List (List α) → Except ε (List α × List (List α))
+  zca : List (List α) → Except ε (List (List α))
+  chol : List (List α) → Except ε (List (List α))
+
+/-- `match self.method { Pca => .., Zca => .., Cholesky => .. }` of `Whitener::fit`, on the centred records -/
+def whitenDecomp {ε : Type} (floor : α) (n : Nat) (ext : Factor α ε) :
+    WMethod → List (List α) → Except ε (List (List α))
+  | .pca, sigma =>
+    match ext.svdVt sigma with
+    | .error e => .error e
+    | .ok (s, vt) => .ok (pcaAssemble floor n s vt)
+  | .zca, sigma => ext.zca sigma
+  | .cholesky, sigma => ext.chol sigma
+
+end
+
 /-! ### dataset forms -/
 
 /-- the parts of a `DatasetBase` the transformers touch -/
@@ -290,5 +323,23 @@ def transformDataset {R R' T W : Type} (f : R → Option R') (nfeat : R' → Nat
     else if ¬ (ds.targetNames.isEmpty ∨ ds.targetNames.length = ntgt ds.targets) then none
     else some { records := recs, targets := ds.targets, weights := ds.weights,
                 featureNames := ds.featureNames, targetNames := ds.targetNames }
+
+section
+variable {α : Type} [Add α] [Sub α] [Mul α] [Div α] [Neg α] [LT α] [DecidableLT α]
+  [LE α] [DecidableLE α] [OfNat α 0] [OfNat α 1] [NatCast α] [Transc α]
+
+/-- `Fit::fit` of `LinearScalerParams` on a dataset: `self.method.fit(x.records())` — targets, sample
+weights and names are not read -/
+def fitDataset {T W : Type} (eps : α) (p : Nat) (q : Params α) (ds : DS (List (List α)) T W) :
+    Except FitErr (Scaler α) :=
+  fitParams eps p ds.records q
+
+/-- `Fit::fit` of `Whitener` on a dataset: `x.nsamples()` and `x.records()` only; the branch taken is the
+one of the parameter object's method -/
+def whitenFitDataset {ε T W : Type} (floor : α) (ext : Factor α ε) (q : WParams) (p : Nat)
+    (ds : DS (List (List α)) T W) : Except (FitErr ⊕ ε) (List α × List (List α)) :=
+  whitenFitParams (whitenDecomp floor ds.records.length ext) q p ds.records
+
+end
 
 end LinfaSpec.Scaling
